@@ -25,8 +25,8 @@ import (
 	"flag"
 	"fmt"
 	"io"
-	"math/rand"
 	"os"
+	"runtime/pprof"
 	"strings"
 	"time"
 
@@ -255,7 +255,13 @@ func main() {
 	maxReport := flag.Int("maxreport", 3, "failures printed per (class label, kind)")
 	maxHangs := flag.Int("maxhangs", 3, "give up (exit 3) after this many hangs")
 	wd := flag.Duration("watchdog", 2*time.Second, "hang watchdog")
+	cpuprof := flag.String("cpuprofile", "", "write a CPU profile (tuning only)")
 	flag.Parse()
+	if *cpuprof != "" {
+		pf, _ := os.Create(*cpuprof)
+		pprof.StartCPUProfile(pf)
+		defer pprof.StopCPUProfile()
+	}
 	watchdog = *wd
 
 	impl.Init(0) // config + logger as main.go sets them up (the parser logs protocol errors)
@@ -362,16 +368,23 @@ func main() {
 						}
 					}
 					schedules = append(schedules, one, insideCRLF, afterLF, two)
-					h := int64(1469598103934665603)
+					h := uint64(1469598103934665603)
 					for _, b := range data {
-						h = (h ^ int64(b)) * 1099511628211
+						h = (h ^ uint64(b)) * 1099511628211
 					}
-					rng := rand.New(rand.NewSource(*seed*1000003 ^ h))
+					x := h ^ uint64(*seed)*0x9E3779B97F4A7C15
+					next := func() uint64 { // splitmix64
+						x += 0x9E3779B97F4A7C15
+						z := x
+						z = (z ^ (z >> 30)) * 0xBF58476D1CE4E5B9
+						z = (z ^ (z >> 27)) * 0x94D049BB133111EB
+						return z ^ (z >> 31)
+					}
 					for k := 0; k < *randSplits; k++ {
 						var cuts []int
-						p := 0.1 + 0.5*rng.Float64()
+						p := 6 + next()%32 // cut probability p/64
 						for i := 1; i < n; i++ {
-							if rng.Float64() < p {
+							if next()%64 < p {
 								cuts = append(cuts, i)
 							}
 						}
